@@ -852,6 +852,13 @@ func (e *env08) probeOnce() (bool, string) {
 			return false, fmt.Sprintf("%s not answered within %v (%v)", cmd, e.probeTO, err)
 		}
 		if !strings.HasPrefix(l, "{") {
+			if cmd == "work list" && strings.HasPrefix(l, "ERROR: unknown work unit ") {
+				// answered: the list raced with the release of a unit (ids are collected first, looked up afterwards)
+				e.res.count("probe_list_raced_with_release")
+
+				continue
+			}
+
 			return false, cmd + " answered " + trunc(l, 200)
 		}
 	}
